@@ -26,8 +26,31 @@ func ShowFields(ctx context.Context, proc *query.Processor, filename string) err
 			return query.NewFileNotExistError(filePath)
 		}
 
-		q := statements[0].(parser.SelectQuery)
-		filePath = q.SelectEntity.(parser.SelectEntity).FromClause.(parser.FromClause).Tables[0].(parser.Table).Object
+		// the text must be a single table object: anything else that happens to parse (a set operation, several
+		// statements, a join) is not a file name
+		if len(statements) != 1 {
+			return query.NewFileNotExistError(filePath)
+		}
+		q, ok := statements[0].(parser.SelectQuery)
+		if !ok {
+			return query.NewFileNotExistError(filePath)
+		}
+		entity, ok := q.SelectEntity.(parser.SelectEntity)
+		if !ok {
+			return query.NewFileNotExistError(filePath)
+		}
+		from, ok := entity.FromClause.(parser.FromClause)
+		if !ok || len(from.Tables) != 1 {
+			return query.NewFileNotExistError(filePath)
+		}
+		table, ok := from.Tables[0].(parser.Table)
+		if !ok {
+			return query.NewFileNotExistError(filePath)
+		}
+		if table.Object == nil || table.Object.GetBaseExpr() == nil {
+			return query.NewFileNotExistError(filePath)
+		}
+		filePath = table.Object
 		filePath.ClearBaseExpr()
 	}
 
